@@ -231,7 +231,8 @@ Definition num_quotient p (a b : num) : out (option num) :=
                 | Some l => Some (Float (f64_trunc (f64_div l r))) | None => None end)
         | BigInt r => do i <- rto_integer W32 (ln, ld); some_big (big_div i r)
         | Rational rn rd =>
-            if ris_integer (rn, rd) then do q <- rdiv p W32 (ln, ld) (rn, rd); Ok (Some (r32 q))
+            if ris_integer (rn, rd) then
+              do q <- rdiv p W32 (ln, ld) (rn, rd); do t <- rtrunc W32 q; Ok (Some (r32 t))
             else Ok None
         end
       else Ok None
